@@ -54,13 +54,24 @@ class Tokenizer:
                 tok = self._stack.pop()
             else:
                 tok = next(self._tokengen)
+            if not self._path:
+                self._record_lines(tok)
             if self.is_blank(tok):
                 continue
 
             self._tokens.append(tok)
-            if not self._path and tok.start[0] not in self._lines:
-                self._lines[tok.start[0]] = tok.line
         return self._tokens[self._index]
+
+    def _record_lines(self, tok: TokenInfo) -> None:
+        """Remember the source line(s) a token lies on, for error reports."""
+        lnum = tok.start[0]
+        if tok.end[0] > lnum and tok.type != Token.MACRO_PARAM:
+            # multi-line token: ``tok.line`` holds all of its physical lines
+            *full, last = tok.line.split("\n")
+            for i, line in enumerate([ln + "\n" for ln in full] + ([last] if last else [])):
+                self._lines.setdefault(lnum + i, line)
+        elif lnum not in self._lines:
+            self._lines[lnum] = tok.line
 
     def is_blank(self, tok: TokenInfo) -> bool:
         if self._proc_macro and tok.type == Token.WS:
@@ -189,7 +200,7 @@ class Tokenizer:
                         if seen == n:
                             break
 
-        return [lines[n] for n in line_numbers]
+        return [lines.get(n, "") for n in line_numbers]
 
     def mark(self) -> Mark:
         return self._index
